@@ -178,9 +178,30 @@ func runBatch(t *testing.T, rc *RunCtx, prop string) {
 		keys := pickKeys(rc, len(w.pop.Accts), n)
 		kind := "atts"
 		if prop == "C08" {
-			kind = []string{"atts", "atts", "multi", "att", "prop", "gen"}[ch.Pick(6, 0)]
+			kind = []string{"atts", "atts", "multi", "att", "prop", "gen", "att-seq"}[ch.Pick(7, 0)]
 		} else if ch.Pick(5, 0) == 4 {
 			kind = "prop"
+		}
+		if kind == "att-seq" {
+			// Consecutive single attestations by different validators of one committee: same slot, committee
+			// index and head, but each with its own source/target checkpoints.
+			sl, ci, head := ch.U64(), ch.U64(), h32("shared head", r, rc.Seed)
+			for j, k := range keys[:min(len(keys), 2+ch.Pick(3, 0))] {
+				uniq++
+				e := attFor(rc, k, model.W[k], uniq)
+				e.Slot, e.CIdx, e.Block = sl, ci, head
+				if j%2 == 1 {
+					e.ByKey = true
+				}
+				so := &Op{Kind: "att", Client: "client1", Entries: []Entry{e}}
+				rs := w.exec(w.a, so, false)
+				model.Apply(so)
+				Monitor(rc, ledger, w.pop, so, rs, r, false)
+			}
+			desc = append(desc, fmt.Sprintf("att-seq procs=%d", procs))
+			rc.Stats.Inc("probe_single_attestations_sharing_slot_committee_head", 1)
+			nontrivial = true
+			continue
 		}
 		o := &Op{Kind: kind, Client: "client1"}
 		switch kind {
